@@ -36,7 +36,7 @@ func (c triggerCfg) sql() string {
 // C16: consolidated output at end of stream == batch grouping of the consolidated input.
 func groupBySQLScenario(r *Run, mode string) {
 	t := r.Tape
-	hdr := t.Block(10)
+	hdr := t.Block(20)
 	maxSteps := 8
 	if r.Thorough() {
 		maxSteps = []int{6, 12, 24}[hdr.Draw(3)]
@@ -70,9 +70,20 @@ func groupBySQLScenario(r *Run, mode string) {
 		key = "k, t"
 	}
 	sql := fmt.Sprintf("SELECT %s, COUNT(v) AS c, SUM(v) AS s, MIN(v) AS m, ARRAY_AGG(v) AS a FROM sim.s s GROUP BY %s%s", key, key, cfg.sql())
+	// In some runs the result is observed the way a user sees it: printed by `octosql -o <mode>` (RunE's own
+	// tail and the real printers, see cli.go). Only where every printed value is an int or NULL (no time column
+	// in the key, no list): the encodings are C25's business, and the csv formatter cannot print a list at all.
+	printMode := ""
+	if mode == "C16" && !byTime && hdr.Chance(1, 3) {
+		printMode = OutputModes[hdr.Draw(len(OutputModes))]
+		sql = fmt.Sprintf("SELECT k, COUNT(v) AS c, SUM(v) AS s, MIN(v) AS m FROM sim.s s GROUP BY k%s", cfg.sql())
+	}
 	attrs := map[string]string{"trigger": cfg.Kinds(), "by_time": fmt.Sprint(byTime)}
 	if noClause {
 		attrs["trigger"] = "none"
+	}
+	if printMode != "" {
+		attrs["output"] = printMode
 	}
 	r.Log("sql: %s (optimize=%v, watermarked=%v)", sql, optimize, watermarked)
 	r.Log("in: %s", ScriptString(script))
@@ -93,13 +104,17 @@ func groupBySQLScenario(r *Run, mode string) {
 			return &ScriptSource{Name: "S", Msgs: script, OnEOS: func() { sourceEnded = true }}
 		},
 	}}
-	planned, err := PlanSQL(bubbleCtx(), sql, tables, optimize)
-	if err != nil {
-		if cfg.watermark && !watermarked {
-			return // planner rejects ON WATERMARK without a time field: not a run
+	var planned *Planned
+	var err error
+	if printMode == "" {
+		planned, err = PlanSQL(bubbleCtx(), sql, tables, optimize)
+		if err != nil {
+			if cfg.watermark && !watermarked {
+				return // planner rejects ON WATERMARK without a time field: not a run
+			}
+			r.Infra("query did not plan: %v", err)
+			return
 		}
-		r.Infra("query did not plan: %v", err)
-		return
 	}
 
 	// reference: batch grouping of the consolidated input
@@ -156,6 +171,9 @@ func groupBySQLScenario(r *Run, mode string) {
 		} else {
 			rw = append(rw, octosql.NewNull(), octosql.NewNull(), octosql.NewNull(), octosql.NewNull())
 		}
+		if printMode != "" {
+			rw = rw[:len(rw)-1]
+		}
 		want.Add(rw, 1)
 	}
 
@@ -191,6 +209,44 @@ func groupBySQLScenario(r *Run, mode string) {
 			lastWM = msg.Watermark
 		}
 		return nil
+	}
+	if printMode != "" {
+		text, oc := RunCLI(r, sql, tables, optimize, printMode, NewCtl(), func(en []string) int { return 0 }, 20000)
+		r.Probe("printed_" + printMode)
+		if !oc.Finished {
+			r.Violate("C16", "deadlock", attrs, "the grouping query did not return")
+			return
+		}
+		if oc.Err != nil {
+			if cfg.watermark && !watermarked {
+				return
+			}
+			if strings.HasPrefix(oc.Err.Error(), "couldn't run query") || strings.HasPrefix(oc.Err.Error(), "panic") {
+				r.Violate("C16", "run_error", attrs, "grouping query failed on a valid changelog: %v", oc.Err)
+			} else {
+				r.Infra("query did not plan: %v", oc.Err)
+			}
+			return
+		}
+		r.Log("printed:\n%s", ansiRe.ReplaceAllString(text, ""))
+		printed, derr := DecodePrinted(printMode, []string{"k", "c", "s", "m"}, text)
+		if derr != nil {
+			r.Violate("C16", "unreadable_output", attrs, "%v", derr)
+			return
+		}
+		for _, p := range printed {
+			nOut++
+			if p.Retr {
+				running.Add(p.Values, -1)
+			} else {
+				running.Add(p.Values, 1)
+			}
+		}
+		r.AddEvents(nOut)
+		if d := running.Diff(want); d != "" {
+			r.Violate("C16", "final_mismatch", attrs, "rows printed with -o %s != batch grouping of the input: %s", printMode, d)
+		}
+		return
 	}
 	func() {
 		defer func() {
